@@ -22,13 +22,16 @@ DevAt(ev) ==
   IF ev.op # "at" THEN {}
   ELSE (IF KF_TdposPreInit /\ cfg.kind = "tdpos" /\ ev.ts < cfg.init THEN {"tdpos-pre-init-slot"} ELSE {})
        \cup (IF KF_XpoaNegativeTs /\ cfg.kind = "xpoa" /\ ev.ts < 0 THEN {"xpoa-negative-timestamp"} ELSE {})
+       \cup (IF KF_TdposTermSetOffset /\ cfg.kind = "tdpos" /\ TipH(cfg) > 0 /\ ev.ts >= cfg.init
+                 /\ TdposSchedCode(cfg, ev.ts).term = TipTerm(cfg) THEN {"tdpos-term-set-offset"} ELSE {})
 
 Tup2Rec(t) == [term |-> t[1], pos |-> t[2], bp |-> t[3]]
 (* expected observation: IDEAL (dv = FALSE) or the ACTUAL alternative (dv = TRUE) *)
 Expected(c, ev, dv) == CASE ev.op = "at" -> ObsAtW(c, ev.ts, dv)
                          [] ev.op = "single" -> [res |-> SingleClass(ev.c)]
                          [] OTHER -> [none |-> 0]
-Actual(c, ev) == CASE ev.op = "at" -> [sched |-> Norm(c, Tup2Rec(ev.sched), ev.ts), acc |-> ev.acc]
+Actual(c, ev) == CASE ev.op = "at" -> [sched |-> Norm(c, Tup2Rec(ev.sched), ev.ts),
+                                       acc |-> IF Silent(c, ev.ts) THEN [i \in 1..Len(ev.acc) |-> "nc"] ELSE ev.acc]
                    [] ev.op = "single" -> [res |-> ev.res]
                    [] OTHER -> [none |-> 0]
 
